@@ -12,9 +12,11 @@ import (
 	"os"
 	"os/exec"
 	"path/filepath"
+	"runtime"
 	"strconv"
 	"strings"
 	"sync"
+	"syscall"
 	"time"
 
 	log "github.com/sirupsen/logrus"
@@ -95,44 +97,49 @@ func c18Batch(k, n int, withQual bool) obiiter.BioSequenceBatch {
 
 type c18Arr struct{ order, n int }
 
-// c18Run drives the real writer over the sink with the forced arrival order (one formatting worker).
+// c18Start starts the real writer over the sink with the forced arrival order (one formatting worker).
+func c18Start(w string, gz bool, own bool, arrival []c18Arr, out io.WriteCloser) (obiiter.IBioSequence, error) {
+	opts := []obiformats.WithOption{obiformats.OptionsParallelWorkers(1), obiformats.OptionsCompressed(gz)}
+	if own {
+		opts = append(opts, obiformats.OptionCloseFile())
+	} else {
+		opts = append(opts, obiformats.OptionDontCloseFile())
+	}
+	it := obiiter.MakeIBioSequence()
+	it.Add(1)
+	go func() {
+		for _, a := range arrival {
+			it.Push(c18Batch(a.order, a.n, w == "fastq"))
+		}
+		it.Done()
+	}()
+	go it.WaitAndClose()
+	switch w {
+	case "fasta":
+		return obiformats.WriteFasta(it, out, opts...)
+	case "fastq":
+		return obiformats.WriteFastq(it, out, opts...)
+	case "json":
+		return obiformats.WriteJSON(it, out, opts...)
+	case "csv":
+		return obiformats.WriteCSV(it, out, opts...)
+	}
+	return obiiter.NilIBioSequence, errors.New("bad-op")
+}
+
+type closeCounter interface{ nclosed() int }
+
+// c18Run drives the real writer over the sink and waits as the commands' main() does.
 func c18Run(w string, gz bool, own bool, arrival []c18Arr, out io.WriteCloser) string {
-	return guardT(4*time.Second, func() string {
-		opts := []obiformats.WithOption{obiformats.OptionsParallelWorkers(1), obiformats.OptionsCompressed(gz)}
-		if own {
-			opts = append(opts, obiformats.OptionCloseFile())
-		} else {
-			opts = append(opts, obiformats.OptionDontCloseFile())
-		}
-		it := obiiter.MakeIBioSequence()
-		it.Add(1)
-		go func() {
-			for _, a := range arrival {
-				it.Push(c18Batch(a.order, a.n, w == "fastq"))
-			}
-			it.Done()
-		}()
-		go it.WaitAndClose()
-		var ni obiiter.IBioSequence
-		var err error
-		switch w {
-		case "fasta":
-			ni, err = obiformats.WriteFasta(it, out, opts...)
-		case "fastq":
-			ni, err = obiformats.WriteFastq(it, out, opts...)
-		case "json":
-			ni, err = obiformats.WriteJSON(it, out, opts...)
-		case "csv":
-			ni, err = obiformats.WriteCSV(it, out, opts...)
-		default:
-			return "bad-op"
-		}
+	return guardT(6*time.Second, func() string {
+		ni, err := c18Start(w, gz, own, arrival, out)
 		if err != nil {
+			if err.Error() == "bad-op" {
+				return "bad-op"
+			}
 			return "fatal"
 		}
 		ni.Consume()
-		// the writer goroutine closes the output last; the global pipe registry cannot be used here
-		// because a writer that died in log.Fatal never unregisters
 		if c18IsChild() {
 			// exactly what the commands' main() does: wait for the pipe registry, then exit.  (Usable
 			// because such cases run in a child process of their own: the registry is process wide and
@@ -140,12 +147,11 @@ func c18Run(w string, gz bool, own bool, arrival []c18Arr, out io.WriteCloser) s
 			obiiter.WaitForLastPipe()
 			return "ok"
 		}
-		if fs, ok := out.(*failSink); ok {
+		// in the parent process the global pipe registry cannot be used (a writer that died in log.Fatal never
+		// unregisters): wait for the Close of the sink, the last thing the writer goroutine does
+		if fs, ok := out.(closeCounter); ok && own {
 			for i := 0; i < 2000; i++ {
-				fs.mu.Lock()
-				c := fs.closes
-				fs.mu.Unlock()
-				if c > 0 {
+				if fs.nclosed() > 0 {
 					return "ok"
 				}
 				time.Sleep(time.Millisecond)
@@ -156,162 +162,449 @@ func c18Run(w string, gz bool, own bool, arrival []c18Arr, out io.WriteCloser) s
 	})
 }
 
-func (c18) Gen(rng *rand.Rand, tier string, emit func(string)) {
-	writers := []string{"fasta", "fastq", "json", "csv"}
-	oneOwn := func(w string, gz, k, cf, own int, arr []c18Arr) {
-		parts := make([]string, len(arr))
-		for i, a := range arr {
-			parts[i] = fmt.Sprintf("%d:%d:-", a.order, a.n)
+func (s *failSink) nclosed() int {
+	s.mu.Lock()
+	defer s.mu.Unlock()
+	return s.closes
+}
+
+// behSink is a scripted io.Writer: short writes with a nil error, temporary errors (the model: Dev).
+type behSink struct {
+	mu       sync.Mutex
+	kind     string // short | temp | partial | errfull
+	a, b     int
+	calls    int
+	buf      bytes.Buffer
+	closeErr bool
+	closes   int
+}
+
+func (s *behSink) Write(p []byte) (int, error) {
+	s.mu.Lock()
+	defer s.mu.Unlock()
+	c := s.calls
+	s.calls++
+	n, fail := len(p), false
+	switch s.kind {
+	case "short":
+		if n > s.a {
+			n = s.a
 		}
-		emit(fmt.Sprintf("%s gz=%d k=%d cf=%d zlen=0 own=%d %s", w, gz, k, cf, own, strings.Join(parts, " ")))
+	case "temp":
+		if c == s.a {
+			n, fail = 0, true
+		}
+	case "partial":
+		if c == s.a {
+			if n > s.b {
+				n = s.b
+			}
+			fail = true
+		}
+	case "errfull":
+		if c == s.a {
+			fail = true
+		}
 	}
+	s.buf.Write(p[:n])
+	if fail {
+		return n, errors.New("input/output error (temporary)")
+	}
+	return n, nil
+}
+
+func (s *behSink) Close() error {
+	s.mu.Lock()
+	defer s.mu.Unlock()
+	s.closes++
+	if s.closeErr {
+		return errors.New("close: input/output error")
+	}
+	return nil
+}
+
+func (s *behSink) nclosed() int {
+	s.mu.Lock()
+	defer s.mu.Unlock()
+	return s.closes
+}
+
+// ---------------------------------------------------------------------------------------------
+// generation
+
+var c18Writers = []string{"fasta", "fastq", "json", "csv"}
+
+func c18ArrStr(arr []c18Arr) string {
+	parts := make([]string, len(arr))
+	for i, a := range arr {
+		parts[i] = fmt.Sprintf("%d:%d:-", a.order, a.n)
+	}
+	return strings.Join(parts, " ")
+}
+
+func c18RandArr(rng *rand.Rand, maxb, maxn int) ([]c18Arr, int) {
+	nb := 1 + rng.Intn(maxb)
+	perm := rng.Perm(nb)
+	arr := make([]c18Arr, nb)
+	total := 0
+	for i, o := range perm {
+		m := rng.Intn(maxn)
+		if rng.Intn(4) == 0 {
+			m = 0
+		}
+		arr[i] = c18Arr{o, m}
+		total += m * 130
+	}
+	return arr, total
+}
+
+// the commands run as subprocesses: name -> can take `-o`
+var c18Commands = []string{"obiconvert", "obigrep", "obiannotate", "obiuniq", "obicomplement", "obipairing", "obicsv", "obidistribute"}
+
+func (c18) Gen(rng *rand.Rand, tier string, emit func(string)) {
+	var lines []string
+	add := func(l string) { lines = append(lines, l) }
+	oneK := func(w string, gz int, k string, cf, own int, arr []c18Arr) {
+		add(fmt.Sprintf("%s gz=%d k=%s cf=%d zlen=0 own=%d %s", w, gz, k, cf, own, c18ArrStr(arr)))
+	}
+	oneOwn := func(w string, gz, k, cf, own int, arr []c18Arr) { oneK(w, gz, strconv.Itoa(k), cf, own, arr) }
 	one := func(w string, gz, k, cf int, arr []c18Arr) { oneOwn(w, gz, k, cf, 1, arr) }
+	small := []c18Arr{{0, 2}, {1, 1}}
+	big := []c18Arr{{1, 30}, {0, 30}, {2, 30}} // chunk 1 is written from the buffer (drained)
 	// corpus: small result (< 4 KiB: reaches the sink only at the final flush), drained chunks, close failure
-	for _, w := range writers {
-		small := []c18Arr{{0, 2}, {1, 1}}
+	for _, w := range c18Writers {
 		for _, k := range []int{0, 1, 100, 300, 1 << 20} {
 			one(w, 0, k, 0, small)
 		}
 		one(w, 0, 1<<20, 1, small)
-		big := []c18Arr{{1, 30}, {0, 30}, {2, 30}} // chunk 1 is written from the buffer (drained)
-		for _, k := range []int{0, 2000, 4096, 5000, 9000, 12000, 1 << 20} {
+		for _, k := range []int{0, 2000, 4095, 4096, 4097, 5000, 9000, 12000, 1 << 20} {
 			one(w, 0, k, 0, big)
 		}
-		one(w, 1, 10, 0, small)
+		// the fault falls on the last byte / nothing is missing: k = result size - 1, result size, result size + 1
+		for _, k := range []string{"z-1", "z", "z+1"} {
+			oneK(w, 0, k, 0, 1, small)
+			oneK(w, 0, k, 0, 1, big)
+			oneK(w, 1, k, 0, 1, small) // compressed: the fault falls in the gzip trailer
+			oneK(w, 0, k, 0, 0, small)
+		}
+		oneK(w, 1, "z-1", 0, 0, big)
+		oneK(w, 1, "z-8", 0, 1, big) // first byte of the trailer
+		oneK(w, 1, "z-9", 0, 1, big) // last byte of the last block
+		oneK(w, 1, "z", 1, 1, small)
+		one(w, 1, 0, 0, small)
+		one(w, 1, 9, 0, small)  // inside the gzip header
+		one(w, 1, 10, 0, small) // header written, nothing else
 		one(w, 1, 1<<20, 0, small)
 		one(w, 1, 200, 0, big)
 		// a writer that does not own its output (what the ...ToStdout variants use)
 		for _, k := range []int{0, 100, 1 << 20} {
 			oneOwn(w, 0, k, 0, 0, small)
 		}
+		oneOwn(w, 0, 1<<20, 1, 0, small) // a failing Close that is never called
 		oneOwn(w, 0, 5000, 0, 0, big)
 		oneOwn(w, 1, 10, 0, 0, small)
+		// scripted io.Writer: short writes with a nil error, temporary errors
+		for _, beh := range []string{"short:1", "short:100", "short:4096", "short:5000", "temp:0", "temp:1", "temp:2", "partial:0:7", "partial:1:100", "errfull:0", "errfull:1"} {
+			add(fmt.Sprintf("dev %s beh=%s cf=0 own=1 %s", w, beh, c18ArrStr(big)))
+		}
+		add(fmt.Sprintf("dev %s beh=short:4096 cf=0 own=1 %s", w, c18ArrStr(small)))
+		add(fmt.Sprintf("dev %s beh=short:3 cf=0 own=0 %s", w, c18ArrStr(small)))
+		add(fmt.Sprintf("dev %s beh=temp:0 cf=1 own=1 %s", w, c18ArrStr(small)))
+		add(fmt.Sprintf("dev %s beh=temp:9 cf=1 own=0 %s", w, c18ArrStr(small)))
+		// several writers in one process (paired files, obidistribute, --unidentified): one of them fails
+		add(fmt.Sprintf("multi %s gz=0 own=1 / k=1048576 cf=0 zlen=0 %s / k=100 cf=0 zlen=0 %s", w, c18ArrStr(small), c18ArrStr(small)))
+		add(fmt.Sprintf("multi %s gz=0 own=1 / k=z-1 cf=0 zlen=0 %s / k=1048576 cf=0 zlen=0 %s / k=1048576 cf=0 zlen=0 %s", w, c18ArrStr(small), c18ArrStr(big), c18ArrStr(small)))
+		add(fmt.Sprintf("multi %s gz=0 own=1 / k=1048576 cf=0 zlen=0 %s / k=1048576 cf=1 zlen=0 %s", w, c18ArrStr(big), c18ArrStr(small)))
+		add(fmt.Sprintf("multi %s gz=1 own=1 / k=1048576 cf=0 zlen=0 %s / k=z-1 cf=0 zlen=0 %s", w, c18ArrStr(small), c18ArrStr(small)))
+		add(fmt.Sprintf("multi %s gz=0 own=1 / k=z cf=0 zlen=0 %s / k=z cf=0 zlen=0 %s / k=z+1 cf=0 zlen=0 %s", w, c18ArrStr(small), c18ArrStr(big), c18ArrStr(small)))
 	}
-	emit("cmd obiconvert devfull 3")
-	emit("cmd obiconvert devfull 2000")
-	emit("cmd obiconvert closedpipe 2000")
-	n := 300
+	// the real WriterDispatcher (obidistribute) over injected sinks: one file per key, one of them fails
+	for _, w := range []string{"fasta", "fastq"} {
+		for _, k := range []string{"0", "100", "z-1", "z/2", "4096", "z"} {
+			add(fmt.Sprintf("disp %s gz=0 own=1 / k=1048576 cf=0 zlen=0 0:7:- / k=%s cf=0 zlen=0 0:60:- / k=1048576 cf=0 zlen=0 0:3:-", w, k))
+		}
+		add(fmt.Sprintf("disp %s gz=1 own=1 / k=z-1 cf=0 zlen=0 0:7:- / k=1048576 cf=0 zlen=0 0:60:-", w))
+		add(fmt.Sprintf("disp %s gz=0 own=1 / k=1048576 cf=0 zlen=0 0:7:- / k=1048576 cf=1 zlen=0 0:5:-", w))
+		add(fmt.Sprintf("disp %s gz=0 own=1 / k=z cf=0 zlen=0 0:7:- / k=z+1 cf=0 zlen=0 0:45:-", w))
+	}
+	// the real commands as subprocesses: cmd <command> <scenario> <nrecords> <k> <format>
+	cmd := func(name, sc string, n, k int, fm string) { add(fmt.Sprintf("cmd %s %s %d %d %s", name, sc, n, k, fm)) }
+	cmd("obiconvert", "devfull", 3, 0, "fasta")
+	cmd("obiconvert", "devfull", 2000, 0, "fasta")
+	cmd("obiconvert", "closedpipe", 2000, 0, "fasta")
+	for _, name := range c18Commands {
+		fm := "fasta"
+		if name == "obipairing" {
+			fm = "fastq"
+		}
+		if name == "obicsv" {
+			fm = "csv"
+		}
+		if name == "obidistribute" {
+			for _, fm := range []string{"fasta", "fastq", "gz"} {
+				cmd(name, "distribute", 40, 0, fm)
+				cmd(name, "distribute-append", 40, 0, fm)
+			}
+			cmd(name, "nofault-distribute", 40, 0, "fasta")
+			continue
+		}
+		cmd(name, "stdoutfull", 3, 0, fm)
+		cmd(name, "stdoutfull", 1500, 0, fm)
+		cmd(name, "closedpipe", 1500, 0, fm)
+		cmd(name, "nofault", 30, 0, fm)
+		if name != "obicsv" { // obicsv has no -o: it always writes to stdout
+			cmd(name, "devfull", 3, 0, fm)
+			cmd(name, "devfull", 1500, 0, fm)
+			cmd(name, "nodir", 3, 0, fm)
+			cmd(name, "fifo", 4000, []int{0, 1, 4095, 4096, 4097}[rng.Intn(5)], fm)
+		}
+	}
+	for _, fm := range []string{"fastq", "json", "gz", "fastq-gz", "json-gz"} {
+		cmd("obiconvert", "devfull", 3, 0, fm)
+		cmd("obiconvert", "devfull", 1500, 0, fm)
+		cmd("obiconvert", "stdoutfull", 3, 0, fm)
+		cmd("obiconvert", "nofault", 30, 0, fm)
+	}
+	for _, k := range []int{0, 1, 4095, 4096, 4097} {
+		cmd("obiconvert", "fifo", 4000, k, "fasta")
+		cmd("obiconvert", "fifo", 4000, k, "json")
+	}
+	cmd("obicsv", "stdoutfull", 3, 0, "csv-gz")
+	for _, fm := range []string{"fasta", "fastq", "json", "gz"} {
+		cmd("obiconvert", "paired2", 30, 0, fm) // the second file of a paired output fails
+		cmd("obiconvert", "paired1", 30, 0, fm) // the first one
+	}
+	cmd("obiconvert", "nofault-paired", 30, 0, "fastq")
+	n := 500
 	if tier == "thorough" {
 		n = 2500
 	}
 	for i := 0; i < n; i++ {
-		w := writers[rng.Intn(4)]
-		nb := 1 + rng.Intn(5)
-		perm := rng.Perm(nb)
-		arr := make([]c18Arr, nb)
-		total := 0
-		for i, o := range perm {
-			m := rng.Intn(25)
-			if rng.Intn(4) == 0 {
-				m = 0
-			}
-			arr[i] = c18Arr{o, m}
-			total += m * 130
-		}
+		w := c18Writers[rng.Intn(4)]
+		arr, total := c18RandArr(rng, 5, 25)
 		gz := 0
-		if rng.Intn(5) == 0 {
+		if rng.Intn(4) == 0 {
 			gz = 1
 		}
-		k := rng.Intn(total + 400)
+		own := 1
 		if rng.Intn(6) == 0 {
-			k = 1 << 20
+			own = 0
+		}
+		switch r := rng.Intn(20); {
+		case r < 2:
+			behs := []string{fmt.Sprintf("short:%d", 1+rng.Intn(6000)), fmt.Sprintf("temp:%d", rng.Intn(4)),
+				fmt.Sprintf("partial:%d:%d", rng.Intn(4), rng.Intn(5000)), fmt.Sprintf("errfull:%d", rng.Intn(4))}
+			add(fmt.Sprintf("dev %s beh=%s cf=%d own=%d %s", w, behs[rng.Intn(4)], rng.Intn(8)/7, own, c18ArrStr(arr)))
+			continue
+		case r < 5 && (w == "fasta" || w == "fastq"):
+			nf := 1 + rng.Intn(4)
+			bad := rng.Intn(nf + 1)
+			l := fmt.Sprintf("disp %s gz=%d own=1", w, gz)
+			for j := 0; j < nf; j++ {
+				m := 1 + rng.Intn(70)
+				k := "1048576"
+				if j == bad {
+					k = []string{"z-1", "0", strconv.Itoa(rng.Intn(m*130 + 50)), "z/2"}[rng.Intn(4)]
+				}
+				l += fmt.Sprintf(" / k=%s cf=0 zlen=0 0:%d:-", k, m)
+			}
+			add(l)
+			continue
+		case r < 4:
+			nf := 2 + rng.Intn(3)
+			bad := rng.Intn(nf + 1) // nf: none fails
+			l := fmt.Sprintf("multi %s gz=%d own=1", w, gz)
+			for j := 0; j < nf; j++ {
+				a, tot := c18RandArr(rng, 4, 12)
+				k := "1048576"
+				if j == bad {
+					k = []string{"z-1", "0", strconv.Itoa(rng.Intn(tot + 50)), "z/2"}[rng.Intn(4)]
+				}
+				l += fmt.Sprintf(" / k=%s cf=0 zlen=0 %s", k, c18ArrStr(a))
+			}
+			add(l)
+			continue
+		}
+		k := strconv.Itoa(rng.Intn(total + 400))
+		switch rng.Intn(12) {
+		case 0, 1:
+			k = "1048576"
+		case 2:
+			k = []string{"z-1", "z", "z+1", "z/2", "z-8", "z-9"}[rng.Intn(6)]
+		case 3:
+			k = strconv.Itoa([]int{0, 1, 4095, 4096, 4097, 8191, 8192, 8193}[rng.Intn(8)])
 		}
 		cf := 0
 		if rng.Intn(12) == 0 {
 			cf = 1
 		}
-		own := 1
-		if rng.Intn(8) == 0 {
-			own = 0
+		oneK(w, gz, k, cf, own, arr)
+	}
+	if tier == "thorough" && rng.Intn(2) == 0 {
+		// results larger than one pgzip block (1 MiB of input): blocks are written before Close
+		for _, w := range []string{"fasta", "json"} {
+			huge := []c18Arr{{1, 4500}, {0, 4500}}
+			for _, k := range []string{"z/2", "z-1", "z", "300000"} {
+				oneK(w, 1, k, 0, 1, huge)
+			}
 		}
-		oneOwn(w, gz, k, cf, own, arr)
+	}
+	c18Precompute(lines)
+	for _, l := range lines {
+		emit(l)
 	}
 }
 
-var c18CmdOnce = map[string]string{}
+// ---------------------------------------------------------------------------------------------
+// parallel pre-execution: every fault-injected case runs in a process of its own; they are run ahead
+// by a pool of workers and Exec picks the result up
 
-// repoCommand builds cmd/obitools/<name> from /repo's working tree once per run.
-func repoCommand(name string) (string, error) {
-	if p, ok := c18CmdOnce[name]; ok {
-		return p, nil
+type c18Res struct {
+	over, res string
+	fails     []Fail
+	trivial   bool
+	stats     map[string]int
+}
+
+var (
+	c18Cache   = map[string]c18Res{}
+	c18CacheMu sync.Mutex
+)
+
+func c18NeedsChild(f []string) bool {
+	if len(f) == 0 {
+		return false
 	}
-	root := os.Getenv("VERIF_ROOT")
-	if root == "" {
-		root = "/verif"
+	switch f[0] {
+	case "cmd":
+		return false
+	case "dev", "multi", "disp":
+		return true
 	}
-	repo := os.Getenv("VERIF_REPO")
-	if repo == "" {
-		repo = "/repo"
+	if len(f) < 6 {
+		return false
 	}
-	out := filepath.Join(binDir(), "cmd_"+name)
-	cmd := exec.Command("go", "build", "-o", out, "./cmd/obitools/"+name)
-	cmd.Dir = repo
-	env := []string{}
-	for _, e := range os.Environ() {
-		if strings.HasPrefix(e, "GOFLAGS=") || strings.HasPrefix(e, "GOWORK=") {
-			continue
+	k, err := strconv.Atoi(strings.TrimPrefix(f[2], "k="))
+	return err != nil || f[5] != "own=1" || f[3] != "cf=0" || k < 1<<20
+}
+
+func c18Precompute(lines []string) {
+	go c18BuildCommands()
+	nw := runtime.NumCPU()
+	if nw > 12 {
+		nw = 12
+	}
+	if nw < 2 {
+		nw = 2
+	}
+	ch := make(chan string)
+	var wg sync.WaitGroup
+	for i := 0; i < nw; i++ {
+		wg.Add(1)
+		go func() {
+			defer wg.Done()
+			for l := range ch {
+				f := strings.Fields(l)
+				var r c18Res
+				if f[0] == "cmd" {
+					r = c18Cmd(f)
+				} else {
+					r = c18Child(l)
+				}
+				c18CacheMu.Lock()
+				c18Cache[l] = r
+				c18CacheMu.Unlock()
+			}
+		}()
+	}
+	// the subprocess scenarios last: the commands are being built meanwhile
+	for pass := 0; pass < 2; pass++ {
+		for _, l := range lines {
+			f := strings.Fields(l)
+			if (pass == 0 && c18NeedsChild(f)) || (pass == 1 && len(f) > 0 && f[0] == "cmd") {
+				ch <- l
+			}
 		}
-		env = append(env, e)
 	}
-	cmd.Env = append(env, "GOPROXY=off", "GOSUMDB=off", "GOTOOLCHAIN=local", "CGO_CFLAGS=-w -O2")
-	if b, err := cmd.CombinedOutput(); err != nil {
-		return "", fmt.Errorf("go build %s: %v: %s", name, err, b)
+	close(ch)
+	wg.Wait()
+}
+
+func (r c18Res) deliver() (string, []Fail) {
+	caseOverride = r.over
+	caseTrivial = r.trivial
+	for k, v := range r.stats {
+		for i := 0; i < v; i++ {
+			stat(k)
+		}
 	}
-	c18CmdOnce[name] = out
-	return out, nil
+	return r.res, r.fails
 }
 
 func (c18) Exec(c string) (string, []Fail) {
 	c18InstallHook()
-	f := strings.Fields(c)
-	if len(f) >= 4 && f[0] == "cmd" {
-		return c18Cmd(f)
-	}
-	if len(f) < 6 {
-		return "bad-op", nil
-	}
-	w := f[0]
-	get := func(s, key string) (int, bool) {
-		if !strings.HasPrefix(s, key+"=") {
-			return 0, false
+	if !c18IsChild() {
+		c18CacheMu.Lock()
+		r, ok := c18Cache[c]
+		c18CacheMu.Unlock()
+		if ok {
+			return r.deliver()
 		}
-		v, err := strconv.Atoi(s[len(key)+1:])
-		return v, err == nil
 	}
-	gz, ok1 := get(f[1], "gz")
-	k, ok2 := get(f[2], "k")
-	cf, ok3 := get(f[3], "cf")
-	own, ok4 := get(f[5], "own")
-	if !ok1 || !ok2 || !ok3 || !ok4 || !strings.HasPrefix(f[4], "zlen=") {
+	f := strings.Fields(c)
+	if len(f) == 0 {
 		return "bad-op", nil
 	}
-	if !c18IsChild() && (own == 0 || cf == 1 || k < 1<<20) {
-		// every fault-injected case runs like a command: its own process, main waiting on the pipe registry
-		return c18Child(c)
+	if f[0] == "cmd" {
+		if len(f) < 6 {
+			return "bad-op", nil
+		}
+		return c18Cmd(f).deliver()
 	}
+	if !c18IsChild() && c18NeedsChild(f) {
+		return c18Child(c).deliver()
+	}
+	switch f[0] {
+	case "dev":
+		return c18ExecDev(f)
+	case "multi":
+		return c18ExecMulti(f)
+	case "disp":
+		return c18ExecDisp(f)
+	}
+	return c18ExecOne(f)
+}
+
+// ---------------------------------------------------------------------------------------------
+// one writer, one sink
+
+func c18ParseArr(fs []string) ([]c18Arr, bool) {
 	var arrival []c18Arr
-	for _, p := range f[6:] {
+	for _, p := range fs {
 		q := strings.Split(p, ":")
 		if len(q) < 2 {
-			return "bad-op", nil
+			return nil, false
 		}
 		o, e1 := strconv.Atoi(q[0])
 		n, e2 := strconv.Atoi(q[1])
 		if e1 != nil || e2 != nil {
-			return "bad-op", nil
+			return nil, false
 		}
 		arrival = append(arrival, c18Arr{o, n})
 	}
-	stat("writer:" + w)
-	// reference run on a sink that never fails: the expected bytes
+	return arrival, true
+}
+
+// c18Reference: the output of the writer on a sink that never fails, the chunk texts (data for the model), and the
+// complete result assembled independently of any run of the writer (uncompressed: compared with the reference)
+func c18Reference(w string, gz, own bool, arrival []c18Arr) (expected []byte, texts []string, fails []Fail, ok bool) {
 	ref := &failSink{limit: 1 << 30}
-	if r := c18Run(w, gz == 1, own == 1, arrival, ref); r != "ok" {
-		return "bad-op", []Fail{{Sig: w + ".reference-run", Text: "writer fails on a sink that never fails: " + r}}
+	if r := c18Run(w, gz, own, arrival, ref); r != "ok" {
+		return nil, nil, []Fail{{Sig: w + ".reference-run", Text: "writer fails on a sink that never fails: " + r}}, false
 	}
-	expected := append([]byte{}, ref.buf.Bytes()...)
-	zlen := len(expected)
-	// chunk texts as data for the model
-	texts := make([]string, len(arrival))
+	expected = append([]byte{}, ref.buf.Bytes()...)
+	texts = make([]string, len(arrival))
+	raw := make([][]byte, len(arrival))
 	opt := obiformats.MakeOptions([]obiformats.WithOption{})
 	for i, a := range arrival {
 		b := c18Batch(a.order, a.n, w == "fastq")
@@ -326,60 +619,87 @@ func (c18) Exec(c string) (string, []Fail) {
 		case "csv":
 			t = obiformats.FormatCVSBatch(b, opt)
 		}
+		raw[i] = t
 		texts[i] = fmt.Sprintf("%d:%d:%s", a.order, a.n, hx(t))
 	}
-	caseOverride = fmt.Sprintf("%s gz=%d k=%d cf=%d zlen=%d own=%d %s", w, gz, k, cf, zlen, own, strings.Join(texts, " "))
-	// the complete result, assembled independently of any run of the writer: the chunk texts in batch order
-	var refFails []Fail
-	if gz == 0 {
-		byOrder := make([][]byte, len(arrival))
-		okOrders := true
-		for i, a := range arrival {
-			if a.order < 0 || a.order >= len(arrival) {
-				okOrders = false
-				break
-			}
-			t, _ := unhx(strings.SplitN(texts[i], ":", 3)[2])
-			byOrder[a.order] = t
+	byOrder := make([][]byte, len(arrival))
+	for i, a := range arrival {
+		if a.order < 0 || a.order >= len(arrival) {
+			return expected, texts, nil, true
 		}
-		if okOrders {
-			var want []byte
-			if w == "json" {
-				want = append(want, "[\n"...)
-				first := true
-				for _, t := range byOrder {
-					if len(t) == 0 {
-						continue
-					}
-					if !first {
-						want = append(want, ",\n"...)
-					}
-					want = append(want, t...)
-					first = false
-				}
-				want = append(want, "\n]\n"...)
-			} else {
-				for _, t := range byOrder {
-					want = append(want, t...)
-				}
+		byOrder[a.order] = raw[i]
+	}
+	var want []byte
+	if w == "json" {
+		want = append(want, "[\n"...)
+		first := true
+		for _, t := range byOrder {
+			if len(t) == 0 {
+				continue
 			}
-			if !bytes.Equal(want, expected) {
-				refFails = append(refFails, Fail{Sig: w + ".silent-loss.no-fault", Text: fmt.Sprintf("on a sink that never fails the writer ended normally with %d of %d bytes written", len(expected), len(want))})
+			if !first {
+				want = append(want, ",\n"...)
 			}
+			want = append(want, t...)
+			first = false
+		}
+		want = append(want, "\n]\n"...)
+	} else {
+		for _, t := range byOrder {
+			want = append(want, t...)
 		}
 	}
-	sink := &failSink{limit: k, closeErr: cf == 1}
-	out := c18Run(w, gz == 1, own == 1, arrival, sink)
-	sink.mu.Lock()
-	got := append([]byte{}, sink.buf.Bytes()...)
-	sink.mu.Unlock()
-	if k < zlen {
-		stat("fault-injected")
+	have := expected
+	if gz {
+		have = c18Gunzip(expected)
 	}
-	if len(expected) < 4096 {
-		stat("result<4KiB")
+	if !bytes.Equal(want, have) {
+		fails = append(fails, Fail{Sig: w + ".silent-loss.no-fault", Text: fmt.Sprintf("on a sink that never fails the writer ended normally with %d of %d bytes written", len(have), len(want))})
 	}
-	fails := refFails
+	return expected, texts, fails, true
+}
+
+func c18Gunzip(b []byte) []byte {
+	zr, err := gzip.NewReader(bytes.NewReader(b))
+	if err != nil {
+		return nil
+	}
+	d, err := io.ReadAll(zr)
+	if err != nil {
+		return nil
+	}
+	return d
+}
+
+// c18ResolveK: k is a number or z, z-1, z+1, z/2, z-8, z-9 (z = size of the complete output)
+func c18ResolveK(s string, z int) (int, bool) {
+	if k, err := strconv.Atoi(s); err == nil {
+		return k, true
+	}
+	k := -1
+	switch s {
+	case "z":
+		k = z
+	case "z-1":
+		k = z - 1
+	case "z+1":
+		k = z + 1
+	case "z/2":
+		k = z / 2
+	case "z-8":
+		k = z - 8
+	case "z-9":
+		k = z - 9
+	default:
+		return 0, false
+	}
+	if k < 0 {
+		k = 0
+	}
+	return k, true
+}
+
+func c18Class(expected []byte, gz, cf, own int) string {
 	class := "small"
 	if len(expected) >= 4096 {
 		class = "large"
@@ -393,92 +713,708 @@ func (c18) Exec(c string) (string, []Fail) {
 	if own == 0 {
 		class += "-notowned"
 	}
+	return class
+}
+
+// c18Judge: the property oracle on one sink
+func c18Judge(w, class, out string, got, expected []byte, gz, closeMustFail bool) []Fail {
+	var fails []Fail
+	if !bytes.HasPrefix(expected, got) {
+		fails = append(fails, Fail{Sig: w + ".not-a-prefix." + class, Text: fmt.Sprintf("the sink holds %d bytes that are not a prefix of the %d bytes of the complete result", len(got), len(expected))})
+	}
 	if out == "ok" {
 		complete := bytes.Equal(got, expected)
-		if gz == 1 && !complete {
-			// compressed streams may differ in block layout; decode instead
-			if zr, err := gzip.NewReader(bytes.NewReader(got)); err == nil {
-				d1, e1 := io.ReadAll(zr)
-				zr2, _ := gzip.NewReader(bytes.NewReader(expected))
-				d2, _ := io.ReadAll(zr2)
-				complete = e1 == nil && bytes.Equal(d1, d2)
-			}
+		if gz && !complete {
+			d1, d2 := c18Gunzip(got), c18Gunzip(expected)
+			complete = d1 != nil && bytes.Equal(d1, d2)
 		}
 		if !complete {
 			fails = append(fails, Fail{Sig: w + ".silent-loss." + class, Text: fmt.Sprintf("writer ended normally but the sink holds %d of %d bytes", len(got), len(expected))})
 		}
-		if cf == 1 && own == 1 {
+		if closeMustFail {
 			fails = append(fails, Fail{Sig: w + ".silent-loss." + class, Text: "Close failed but the writer ended normally"})
 		}
 	} else if out != "fatal" {
 		fails = append(fails, Fail{Sig: w + ".outcome", Text: "writer neither completed nor reported: " + out})
 	}
-	if gz == 1 {
-		return out, fails
+	return fails
+}
+
+func c18Get(s, key string) (int, bool) {
+	if !strings.HasPrefix(s, key+"=") {
+		return 0, false
 	}
+	v, err := strconv.Atoi(s[len(key)+1:])
+	return v, err == nil
+}
+
+func c18ExecOne(f []string) (string, []Fail) {
+	if len(f) < 6 {
+		return "bad-op", nil
+	}
+	w := f[0]
+	gz, ok1 := c18Get(f[1], "gz")
+	cf, ok3 := c18Get(f[3], "cf")
+	own, ok4 := c18Get(f[5], "own")
+	if !ok1 || !ok3 || !ok4 || !strings.HasPrefix(f[2], "k=") || !strings.HasPrefix(f[4], "zlen=") {
+		return "bad-op", nil
+	}
+	arrival, ok := c18ParseArr(f[6:])
+	if !ok {
+		return "bad-op", nil
+	}
+	stat("writer:" + w)
+	expected, texts, fails, ok := c18Reference(w, gz == 1, own == 1, arrival)
+	if !ok {
+		return "bad-op", fails
+	}
+	zlen := len(expected)
+	k, ok := c18ResolveK(f[2][2:], zlen)
+	if !ok {
+		return "bad-op", nil
+	}
+	caseOverride = fmt.Sprintf("%s gz=%d k=%d cf=%d zlen=%d own=%d %s", w, gz, k, cf, zlen, own, strings.Join(texts, " "))
+	sink := &failSink{limit: k, closeErr: cf == 1}
+	out := c18Run(w, gz == 1, own == 1, arrival, sink)
+	sink.mu.Lock()
+	got := append([]byte{}, sink.buf.Bytes()...)
+	sink.mu.Unlock()
+	if k < zlen {
+		stat("fault-injected")
+		switch {
+		case gz == 1 && k < 10:
+			stat("fault:gz-header")
+		case gz == 1 && k >= zlen-8:
+			stat("fault:gz-trailer")
+		case gz == 1:
+			stat("fault:gz-blocks")
+		case k >= zlen-zlen%4096 || zlen < 4096:
+			stat("fault:final-flush")
+		default:
+			stat("fault:mid-stream")
+		}
+	}
+	if k == zlen || k == zlen+1 || k == zlen-1 {
+		stat("k=size+-1")
+	}
+	if len(expected) < 4096 {
+		stat("result<4KiB")
+	}
+	if gz == 1 {
+		stat("compressed")
+	}
+	if own == 0 {
+		stat("not-owned")
+	}
+	fails = append(fails, c18Judge(w, c18Class(expected, gz, cf, own), out, got, expected, gz == 1, cf == 1 && own == 1)...)
 	return fmt.Sprintf("%s got=%d", out, len(got)), fails
 }
 
-// c18Cmd runs the real command as a subprocess: `cmd obiconvert devfull|closedpipe <nrecords>`.
-func c18Cmd(f []string) (string, []Fail) {
-	caseTrivial = false
-	n, err := strconv.Atoi(f[3])
-	if err != nil || f[1] != "obiconvert" {
+// one writer over a scripted io.Writer: dev <writer> beh=<..> cf=<0|1> own=<0|1> chunks
+func c18ExecDev(f []string) (string, []Fail) {
+	if len(f) < 5 || !strings.HasPrefix(f[2], "beh=") {
 		return "bad-op", nil
 	}
-	bin, err := repoCommand("obiconvert")
-	if err != nil {
-		return "bad-op", []Fail{{Sig: "cmd.build", Text: err.Error()}}
+	w := f[1]
+	cf, ok1 := c18Get(f[3], "cf")
+	own, ok2 := c18Get(f[4], "own")
+	arrival, ok3 := c18ParseArr(f[5:])
+	bp := strings.Split(f[2][4:], ":")
+	if !ok1 || !ok2 || !ok3 || len(bp) < 2 {
+		return "bad-op", nil
 	}
+	sink := &behSink{kind: bp[0], closeErr: cf == 1}
+	var err error
+	if sink.a, err = strconv.Atoi(bp[1]); err != nil {
+		return "bad-op", nil
+	}
+	if len(bp) > 2 {
+		if sink.b, err = strconv.Atoi(bp[2]); err != nil {
+			return "bad-op", nil
+		}
+	}
+	if sink.kind == "short" && sink.a < 1 {
+		return "bad-op", nil // an io.Writer returning (0, nil) for ever makes bufio.Writer loop for ever
+	}
+	stat("dev:" + sink.kind)
+	expected, texts, fails, ok := c18Reference(w, false, own == 1, arrival)
+	if !ok {
+		return "bad-op", fails
+	}
+	caseOverride = fmt.Sprintf("dev %s %s cf=%d own=%d %s", w, f[2], cf, own, strings.Join(texts, " "))
+	out := c18Run(w, false, own == 1, arrival, sink)
+	sink.mu.Lock()
+	got := append([]byte{}, sink.buf.Bytes()...)
+	sink.mu.Unlock()
+	if out == "fatal" {
+		stat("dev-fatal")
+	}
+	fails = append(fails, c18Judge(w, "dev-"+sink.kind, out, got, expected, false, cf == 1 && own == 1)...)
+	return fmt.Sprintf("%s got=%d", out, len(got)), fails
+}
+
+// several writers in one process: multi <writer> gz=<g> own=<o> / k=.. cf=.. zlen=.. chunks / ...
+func c18ExecMulti(f []string) (string, []Fail) {
+	if len(f) < 5 || f[4] != "/" {
+		return "bad-op", nil
+	}
+	w := f[1]
+	gz, ok1 := c18Get(f[2], "gz")
+	own, ok2 := c18Get(f[3], "own")
+	if !ok1 || !ok2 {
+		return "bad-op", nil
+	}
+	var groups [][]string
+	cur := []string{}
+	for _, x := range f[5:] {
+		if x == "/" {
+			groups = append(groups, cur)
+			cur = []string{}
+		} else {
+			cur = append(cur, x)
+		}
+	}
+	groups = append(groups, cur)
+	type file struct {
+		arrival  []c18Arr
+		expected []byte
+		sink     *failSink
+		k, cf    int
+	}
+	var files []file
+	var fails []Fail
+	over := fmt.Sprintf("multi %s gz=%d own=%d", w, gz, own)
+	for _, g := range groups {
+		if len(g) < 3 || !strings.HasPrefix(g[0], "k=") {
+			return "bad-op", nil
+		}
+		cf, okc := c18Get(g[1], "cf")
+		arrival, oka := c18ParseArr(g[3:])
+		if !okc || !oka {
+			return "bad-op", nil
+		}
+		expected, texts, fs, ok := c18Reference(w, gz == 1, own == 1, arrival)
+		fails = append(fails, fs...)
+		if !ok {
+			return "bad-op", fails
+		}
+		k, ok := c18ResolveK(g[0][2:], len(expected))
+		if !ok {
+			return "bad-op", nil
+		}
+		over += fmt.Sprintf(" / k=%d cf=%d zlen=%d %s", k, cf, len(expected), strings.Join(texts, " "))
+		files = append(files, file{arrival, expected, &failSink{limit: k, closeErr: cf == 1}, k, cf})
+	}
+	caseOverride = over
+	stat(fmt.Sprintf("multi:%d-writers", len(files)))
+	out := guardT(8*time.Second, func() string {
+		var its []obiiter.IBioSequence
+		for _, fl := range files {
+			ni, err := c18Start(w, gz == 1, own == 1, fl.arrival, fl.sink)
+			if err != nil {
+				return "fatal"
+			}
+			its = append(its, ni)
+		}
+		var wg sync.WaitGroup
+		for _, ni := range its {
+			wg.Add(1)
+			go func(ni obiiter.IBioSequence) { defer wg.Done(); ni.Consume() }(ni)
+		}
+		wg.Wait()
+		obiiter.WaitForLastPipe() // what main() does
+		return "ok"
+	})
+	anyBad := false
+	for i, fl := range files {
+		fl.sink.mu.Lock()
+		got := append([]byte{}, fl.sink.buf.Bytes()...)
+		fl.sink.mu.Unlock()
+		if fl.k < len(fl.expected) || (fl.cf == 1 && own == 1) {
+			anyBad = true
+		}
+		o := out
+		if out == "fatal" && bytes.Equal(got, fl.expected) {
+			continue // this one is complete; another one failed
+		}
+		if out == "fatal" {
+			o = "fatal"
+		}
+		for _, x := range c18Judge(w, fmt.Sprintf("multi-%d", i), o, got, fl.expected, gz == 1, fl.cf == 1 && own == 1) {
+			fails = append(fails, x)
+		}
+	}
+	if anyBad {
+		stat("multi:one-fails")
+	}
+	switch out {
+	case "ok":
+		return "exit0", fails
+	case "fatal":
+		return "exit1", fails
+	}
+	return out, fails
+}
+
+// c18Dispatch drives the real obiformats.WriterDispatcher (what obidistribute runs): file j receives counts[j]
+// sequences; the formater opens the injected sinks instead of files.  Returns what main() would see.
+func c18Dispatch(w string, gz bool, counts []int, sinks []*failSink) string {
+	return guardT(8*time.Second, func() string {
+		it := obiiter.MakeIBioSequence()
+		it.Add(1)
+		go func() {
+			sl := obiseq.MakeBioSequenceSlice()
+			order := 0
+			left := append([]int{}, counts...)
+			for more := true; more; {
+				more = false
+				for j := range left { // interleave the keys
+					if left[j] > 0 {
+						s := c18Record(100+j, left[j], w == "fastq")
+						s.SetAttribute("key", fmt.Sprintf("f%d", j))
+						sl = append(sl, s)
+						left[j]--
+						more = true
+					}
+					if len(sl) == 9 {
+						it.Push(obiiter.MakeBioSequenceBatch("src", order, sl))
+						order++
+						sl = obiseq.MakeBioSequenceSlice()
+					}
+				}
+			}
+			if len(sl) > 0 {
+				it.Push(obiiter.MakeBioSequenceBatch("src", order, sl))
+			}
+			it.Done()
+		}()
+		go it.WaitAndClose()
+		var mu sync.Mutex
+		formater := func(data obiiter.IBioSequence, filename string, options ...obiformats.WithOption) (obiiter.IBioSequence, error) {
+			name := strings.TrimSuffix(filename, ".gz")
+			j, err := strconv.Atoi(strings.TrimPrefix(name, "f"))
+			mu.Lock()
+			defer mu.Unlock()
+			if err != nil || j < 0 || j >= len(sinks) {
+				return obiiter.NilIBioSequence, errors.New("unknown file " + filename)
+			}
+			options = append(options, obiformats.OptionCloseFile())
+			if w == "fastq" {
+				return obiformats.WriteFastq(data, sinks[j], options...)
+			}
+			return obiformats.WriteFasta(data, sinks[j], options...)
+		}
+		dispatcher := it.Distribute(obiseq.AnnotationClassifier("key", "NA"), 11)
+		obiformats.WriterDispatcher("%s", dispatcher, formater,
+			obiformats.OptionsParallelWorkers(2), obiformats.OptionsCompressed(gz))
+		obiiter.WaitForLastPipe() // what main() does
+		return "ok"
+	})
+}
+
+// disp <writer> gz=<g> own=1 / k=.. cf=.. zlen=.. 0:<nseq>:<text> / ...   (one group per file of the dispatcher)
+func c18ExecDisp(f []string) (string, []Fail) {
+	if len(f) < 5 || f[4] != "/" || (f[1] != "fasta" && f[1] != "fastq") {
+		return "bad-op", nil
+	}
+	w := f[1]
+	gz, ok1 := c18Get(f[2], "gz")
+	if !ok1 || f[3] != "own=1" {
+		return "bad-op", nil
+	}
+	var groups [][]string
+	cur := []string{}
+	for _, x := range f[5:] {
+		if x == "/" {
+			groups = append(groups, cur)
+			cur = []string{}
+		} else {
+			cur = append(cur, x)
+		}
+	}
+	groups = append(groups, cur)
+	var counts, cfs []int
+	var ks []string
+	for _, g := range groups {
+		if len(g) != 4 || !strings.HasPrefix(g[0], "k=") {
+			return "bad-op", nil
+		}
+		cf, okc := c18Get(g[1], "cf")
+		arr, oka := c18ParseArr(g[3:])
+		if !okc || !oka || len(arr) != 1 || arr[0].n < 1 {
+			return "bad-op", nil
+		}
+		counts, cfs, ks = append(counts, arr[0].n), append(cfs, cf), append(ks, g[0][2:])
+	}
+	// reference run: sinks that never fail
+	refs := make([]*failSink, len(counts))
+	for j := range refs {
+		refs[j] = &failSink{limit: 1 << 30}
+	}
+	if r := c18Dispatch(w, gz == 1, counts, refs); r != "ok" {
+		return "bad-op", []Fail{{Sig: w + ".dispatcher.reference-run", Text: "dispatcher fails on sinks that never fail: " + r}}
+	}
+	sinks := make([]*failSink, len(counts))
+	over := fmt.Sprintf("disp %s gz=%d own=1", w, gz)
+	var fails []Fail
+	anyBad := false
+	for j := range counts {
+		exp := refs[j].buf.Bytes()
+		k, ok := c18ResolveK(ks[j], len(exp))
+		if !ok {
+			return "bad-op", nil
+		}
+		// the text of the file as data for the model (one chunk: the result of FASTA/FASTQ is the concatenation)
+		text := exp
+		if gz == 1 {
+			text = c18Gunzip(exp)
+		}
+		nrec := bytes.Count(text, []byte{'\n', '>'}) + 1
+		if w == "fastq" {
+			nrec = bytes.Count(text, []byte("\n+\n"))
+		}
+		if nrec != counts[j] {
+			fails = append(fails, Fail{Sig: w + ".dispatcher.silent-loss.no-fault", Text: fmt.Sprintf("file %d holds %d of %d records on a sink that never fails", j, nrec, counts[j])})
+		}
+		over += fmt.Sprintf(" / k=%d cf=%d zlen=%d 0:%d:%s", k, cfs[j], len(exp), counts[j], hx(text))
+		sinks[j] = &failSink{limit: k, closeErr: cfs[j] == 1}
+		if k < len(exp) || cfs[j] == 1 {
+			anyBad = true
+		}
+	}
+	caseOverride = over
+	stat(fmt.Sprintf("dispatcher:%d-files", len(counts)))
+	if anyBad {
+		stat("dispatcher:one-fails")
+	}
+	out := c18Dispatch(w, gz == 1, counts, sinks)
+	for j := range sinks {
+		sinks[j].mu.Lock()
+		got := append([]byte{}, sinks[j].buf.Bytes()...)
+		sinks[j].mu.Unlock()
+		exp := refs[j].buf.Bytes()
+		if out == "fatal" && bytes.Equal(got, exp) && cfs[j] == 0 {
+			continue
+		}
+		fails = append(fails, c18Judge(w, fmt.Sprintf("dispatcher-%d", j), out, got, exp, gz == 1, cfs[j] == 1)...)
+	}
+	switch out {
+	case "ok":
+		return "exit0", fails
+	case "fatal":
+		return "exit1", fails
+	}
+	return out, fails
+}
+
+// ---------------------------------------------------------------------------------------------
+// the real commands as subprocesses
+
+var (
+	c18BuildOnce sync.Once
+	c18BuildErr  error
+)
+
+func c18CmdDir() string { return filepath.Join(binDir(), "c18cmds") }
+
+// c18BuildCommands builds cmd/obitools/<name> for every command used, from the tree under check, once per run.
+func c18BuildCommands() error {
+	c18BuildOnce.Do(func() {
+		repo := os.Getenv("VERIF_REPO")
+		if repo == "" {
+			repo = "/repo"
+		}
+		os.MkdirAll(c18CmdDir(), 0o755)
+		args := []string{"build", "-o", c18CmdDir() + "/"}
+		for _, n := range c18Commands {
+			args = append(args, "./cmd/obitools/"+n)
+		}
+		cmd := exec.Command("go", args...)
+		cmd.Dir = repo
+		env := []string{}
+		for _, e := range os.Environ() {
+			if strings.HasPrefix(e, "GOFLAGS=") || strings.HasPrefix(e, "GOWORK=") || strings.HasPrefix(e, "C18_CHILD=") {
+				continue
+			}
+			env = append(env, e)
+		}
+		cmd.Env = append(env, "GOPROXY=off", "GOSUMDB=off", "GOTOOLCHAIN=local", "CGO_CFLAGS=-w -O2")
+		if b, err := cmd.CombinedOutput(); err != nil {
+			c18BuildErr = fmt.Errorf("go build: %v: %s", err, b)
+		}
+	})
+	return c18BuildErr
+}
+
+func c18Inputs(dir string, n int) (fasta, r1, r2 string) {
+	fasta, r1, r2 = filepath.Join(dir, "in.fasta"), filepath.Join(dir, "r1.fastq"), filepath.Join(dir, "r2.fastq")
+	var a, b, c strings.Builder
+	rc := map[byte]byte{'a': 't', 'c': 'g', 'g': 'c', 't': 'a'}
+	for i := 0; i < n; i++ {
+		r := rand.New(rand.NewSource(int64(i + 5)))
+		sq := make([]byte, 60)
+		for j := range sq {
+			sq[j] = "acgt"[r.Intn(4)]
+		}
+		rv := make([]byte, 60)
+		for j := range sq {
+			rv[59-j] = rc[sq[j]]
+		}
+		q := strings.Repeat("I", 60)
+		fmt.Fprintf(&a, ">s%d {\"sample\":\"%c\"}\n%s\n", i, "ABC"[i%3], sq)
+		fmt.Fprintf(&b, "@s%d {\"sample\":\"%c\"}\n%s\n+\n%s\n", i, "ABC"[i%3], sq, q)
+		fmt.Fprintf(&c, "@s%d\n%s\n+\n%s\n", i, rv, q)
+	}
+	os.WriteFile(fasta, []byte(a.String()), 0o644)
+	os.WriteFile(r1, []byte(b.String()), 0o644)
+	os.WriteFile(r2, []byte(c.String()), 0o644)
+	return
+}
+
+// c18Cmd runs a real command as a subprocess: cmd <command> <scenario> <nrecords> <k> <format>
+func c18Cmd(f []string) (res c18Res) {
+	res.over = strings.Join(f, " ")
+	res.stats = map[string]int{}
+	bad := func(sig, text string) c18Res {
+		res.res = "bad-op"
+		if sig != "" {
+			res.fails = []Fail{{Sig: sig, Text: text}}
+		}
+		return res
+	}
+	if len(f) < 6 {
+		return bad("", "")
+	}
+	name, sc, fm := f[1], f[2], f[5]
+	n, e1 := strconv.Atoi(f[3])
+	k, e2 := strconv.Atoi(f[4])
+	known := false
+	for _, c := range c18Commands {
+		known = known || c == name
+	}
+	if e1 != nil || e2 != nil || !known {
+		return bad("", "")
+	}
+	if err := c18BuildCommands(); err != nil {
+		return bad("cmd.build", err.Error())
+	}
+	bin := filepath.Join(c18CmdDir(), name)
 	dir, _ := os.MkdirTemp("", "c18")
 	defer os.RemoveAll(dir)
-	in := filepath.Join(dir, "in.fasta")
-	var sb strings.Builder
-	for i := 0; i < n; i++ {
-		fmt.Fprintf(&sb, ">s%d\nacgtacgtacgtacgtacgtacgtacgtacgt\n", i)
+	fasta, r1, r2 := c18Inputs(dir, n)
+	var args []string
+	ext := "fasta"
+	for _, p := range strings.Split(fm, "-") {
+		switch p {
+		case "fastq":
+			args = append(args, "--fastq-output")
+			ext = "fastq"
+		case "json":
+			args = append(args, "--json-output")
+			ext = "json"
+		case "gz":
+			args = append(args, "-Z")
+		}
 	}
-	os.WriteFile(in, []byte(sb.String()), 0o644)
-	var cmd *exec.Cmd
-	switch f[2] {
+	in := []string{fasta}
+	if ext == "fastq" {
+		in = []string{r1}
+	}
+	switch name {
+	case "obipairing":
+		in = []string{"-F", r1, "-R", r2}
+	case "obicsv":
+		in = append([]string{"-i", "-s"}, in...)
+	case "obigrep":
+		in = append([]string{"-l", "10"}, in...)
+	case "obiannotate":
+		in = append([]string{"--length"}, in...)
+	}
+	outFile := filepath.Join(dir, "out."+ext)
+	var stdout *os.File
+	var after func()
+	var fifoReader func(pid int)
+	var produced func() int64 // bytes that reached the outputs in a no-fault scenario
+	fileSize := func(p string) int64 {
+		st, err := os.Stat(p)
+		if err != nil {
+			return -1
+		}
+		return st.Size()
+	}
+	switch sc {
 	case "devfull":
-		cmd = exec.Command(bin, in, "-o", "/dev/full")
+		args = append(args, "-o", "/dev/full")
+	case "nodir":
+		args = append(args, "-o", filepath.Join(dir, "no", "such", "dir", "out."+ext))
+	case "stdoutfull":
+		stdout, _ = os.OpenFile("/dev/full", os.O_WRONLY, 0)
 	case "closedpipe":
-		cmd = exec.Command(bin, in)
 		pr, pw, _ := os.Pipe()
 		pr.Close()
-		cmd.Stdout = pw
-		defer pw.Close()
+		stdout = pw
+	case "fifo":
+		// the output is a FIFO whose reader goes away after k bytes; the result is far larger than k + the pipe buffer
+		fifo := filepath.Join(dir, "out.fifo")
+		if err := syscall.Mkfifo(fifo, 0o600); err != nil {
+			return bad("", "")
+		}
+		rd, err := os.OpenFile(fifo, os.O_RDWR, 0)
+		if err != nil {
+			return bad("", "")
+		}
+		fifoReader = func(pid int) {
+			// wait until the command has opened the FIFO (k = 0: the reader would be gone before)
+			for i := 0; i < 3000; i++ {
+				ents, _ := os.ReadDir(fmt.Sprintf("/proc/%d/fd", pid))
+				for _, e := range ents {
+					if l, err := os.Readlink(fmt.Sprintf("/proc/%d/fd/%s", pid, e.Name())); err == nil && l == fifo {
+						i = 1 << 30
+					}
+				}
+				if i < 1<<30 {
+					time.Sleep(2 * time.Millisecond)
+				}
+			}
+			io.CopyN(io.Discard, rd, int64(k))
+			rd.Close()
+		}
+		after = func() { rd.Close() }
+		args = append(args, "-o", fifo)
+	case "nofault":
+		if name == "obicsv" {
+			stdout, _ = os.Create(outFile)
+		} else {
+			args = append(args, "-o", outFile)
+		}
+		produced = func() int64 { return fileSize(outFile) }
+	case "paired1", "paired2", "nofault-paired":
+		in = []string{r1, "--paired-with", r2}
+		if ext == "fasta" {
+			in = append(in, "--fasta-output")
+		}
+		o1, o2 := filepath.Join(dir, "out_R1."+ext), filepath.Join(dir, "out_R2."+ext)
+		switch sc {
+		case "paired1":
+			os.Symlink("/dev/full", o1)
+		case "paired2":
+			os.Symlink("/dev/full", o2)
+		}
+		args = append(args, "-o", outFile)
+		produced = func() int64 {
+			if fileSize(o1) <= 0 || fileSize(o2) <= 0 {
+				return 0
+			}
+			return fileSize(o1) + fileSize(o2)
+		}
+	case "distribute", "distribute-append", "nofault-distribute":
+		suffix := ""
+		if strings.Contains(fm, "gz") {
+			suffix = ".gz"
+		}
+		if sc != "nofault-distribute" {
+			os.Symlink("/dev/full", filepath.Join(dir, "d_B."+ext+suffix))
+		}
+		if sc == "distribute-append" {
+			args = append(args, "--append")
+			os.WriteFile(filepath.Join(dir, "d_A."+ext+suffix), []byte{}, 0o644)
+		}
+		args = append(args, "-p", filepath.Join(dir, "d_%s."+ext), "-c", "sample")
+		produced = func() int64 {
+			t := int64(0)
+			for _, x := range []string{"A", "B", "C"} {
+				s := fileSize(filepath.Join(dir, "d_"+x+"."+ext+suffix))
+				if s <= 0 {
+					return 0
+				}
+				t += s
+			}
+			return t
+		}
 	default:
-		return "bad-op", nil
+		return bad("", "")
 	}
+	cmd := exec.Command(bin, append(in, args...)...)
+	var stderr bytes.Buffer
+	cmd.Stderr = &stderr
+	if stdout != nil {
+		cmd.Stdout = stdout
+		defer stdout.Close()
+	}
+	env := []string{}
+	for _, e := range os.Environ() {
+		if !strings.HasPrefix(e, "C18_CHILD=") {
+			env = append(env, e)
+		}
+	}
+	cmd.Env = env
 	done := make(chan error, 1)
-	cmd.Start()
+	if err := cmd.Start(); err != nil {
+		return bad("cmd.start", err.Error())
+	}
 	go func() { done <- cmd.Wait() }()
-	var res string
+	if fifoReader != nil {
+		go fifoReader(cmd.Process.Pid)
+	}
+	signaled := false
 	select {
 	case err := <-done:
 		if err == nil {
-			res = "exit0"
+			res.res = "exit0"
 		} else {
-			res = "exit-nonzero"
+			res.res = "exit-nonzero"
+			if ee, ok := err.(*exec.ExitError); ok {
+				if ws, ok := ee.Sys().(syscall.WaitStatus); ok && ws.Signaled() {
+					signaled = true
+				}
+			}
 		}
-	case <-time.After(60 * time.Second):
+	case <-time.After(40 * time.Second):
 		cmd.Process.Kill()
-		res = "hang"
+		res.res = "hang"
 	}
-	stat("subprocess:" + f[2])
-	var fails []Fail
-	if res != "exit-nonzero" {
-		class := "small"
-		if n > 100 {
-			class = "large"
+	if after != nil {
+		after()
+	}
+	res.stats["subprocess:"+sc]++
+	res.stats["subprocess-cmd:"+name]++
+	class := "small"
+	if n > 100 {
+		class = "large"
+	}
+	sig := "cmd." + name + "." + sc + "." + class
+	if strings.HasPrefix(sc, "nofault") {
+		if res.res != "exit0" {
+			res.fails = append(res.fails, Fail{Sig: sig, Text: name + " whose outputs can all be written ended with " + res.res + ": " + c18Tail(stderr.String())})
+		} else if produced != nil && produced() <= 0 {
+			res.fails = append(res.fails, Fail{Sig: sig, Text: name + " ended with status 0 but an output is missing or empty"})
 		}
-		fails = append(fails, Fail{Sig: "cmd." + f[2] + "." + class, Text: "obiconvert whose output cannot be written ended with " + res})
+		return res
 	}
-	// the model has no process: the expected result is part of the line protocol
-	caseOverride = strings.Join(f, " ")
-	return res, fails
+	if res.res != "exit-nonzero" {
+		res.fails = append(res.fails, Fail{Sig: sig, Text: name + " one of whose outputs cannot be written ended with " + res.res})
+	} else if !signaled {
+		// a normal exit with a non-zero status must come with a message (a death by SIGPIPE is reported by the shell)
+		low := strings.ToLower(stderr.String())
+		if !strings.Contains(low, "fatal") && !strings.Contains(low, "cannot") && !strings.Contains(low, "error") {
+			res.fails = append(res.fails, Fail{Sig: sig + ".no-message", Text: name + " failed without reporting the failure on stderr: " + c18Tail(stderr.String())})
+		}
+		res.stats["subprocess:reported-on-stderr"]++
+	} else {
+		res.stats["subprocess:killed-by-signal"]++
+	}
+	return res
 }
+
+func c18Tail(s string) string {
+	if len(s) > 300 {
+		s = s[len(s)-300:]
+	}
+	return s
+}
+
+// ---------------------------------------------------------------------------------------------
+// child processes
 
 func c18IsChild() bool { return os.Getenv("C18_CHILD") != "" }
 
@@ -507,26 +1443,31 @@ func c18InstallHook() {
 
 // c18Child runs one case in a process of its own (the pipe registry of the real code is process wide
 // and is left unbalanced by every case that ends in log.Fatal).
-func c18Child(c string) (string, []Fail) {
+func c18Child(c string) (r c18Res) {
+	r.stats = map[string]int{"child-process": 1}
 	cmd := exec.Command(os.Args[0], "C18", "exec")
 	cmd.Env = append(os.Environ(), "C18_CHILD=1")
 	cmd.Stdin = strings.NewReader(c + "\n")
 	outb, err := cmd.Output()
 	if err != nil {
-		return "child-error", []Fail{{Sig: "child.error", Text: err.Error()}}
+		r.res = "child-error"
+		r.fails = []Fail{{Sig: "child.error", Text: err.Error()}}
+		return r
 	}
-	res := "child-error"
-	var fails []Fail
+	r.res = "child-error"
 	for _, l := range strings.Split(string(outb), "\n") {
 		p := strings.Split(l, "\t")
 		switch {
 		case p[0] == "C" && len(p) >= 3:
-			caseOverride = p[1]
-			res = p[2]
+			r.over = p[1]
+			r.res = p[2]
 		case p[0] == "F" && len(p) >= 4:
-			fails = append(fails, Fail{Sig: p[1], Text: p[3]})
+			r.fails = append(r.fails, Fail{Sig: p[1], Text: p[3]})
+		case p[0] == "S" && len(p) >= 3:
+			if v, err := strconv.Atoi(p[2]); err == nil {
+				r.stats[p[1]] += v
+			}
 		}
 	}
-	stat("child-process")
-	return res, fails
+	return r
 }
